@@ -30,12 +30,12 @@ def _array_sig(db, name):
     f = db.one(name, None)
     prefix = None
     width = None
+    from ..db import is_local
+    p0 = next((p_.get("lid") for p_ in (f.info.get("params") or []) if isinstance(p_, dict)), None)
     for n, _ in walk(f.hir):
-        if n.get("k") == "Let" and "init" in n:
-            init = render(n["init"])
-            for p in NOM_WIDTH:
-                if p + "(input)" in init.replace("complete::", ""):
-                    prefix = p
+        # the count prefix: the nom primitive applied to the function's own input (first parameter, whatever it is called)
+        if is_call(n) and (callee(n) or "").split("::")[-1] in NOM_WIDTH and n.get("args") and is_local(n["args"][0], p0):
+            prefix = (callee(n) or "").split("::")[-1]
     for n, _ in walk(f.hir):
         if is_call(n) and path_ends(callee(n), "multi::count"):
             a0 = n["args"][0]
@@ -44,11 +44,9 @@ def _array_sig(db, name):
                 if x.get("k") == "Path" and (x.get("path") or "").split("::")[-1] in NOM_WIDTH:
                     nm = x["path"].split("::")[-1]
             width = NOM_WIDTH.get(nm)
-        if n.get("k") == "Binary" and n.get("op") == "Mul" and lit_int(n["r"]) is not None and "length" in render(n["l"]):
-            width = lit_int(n["r"])
-            MUL_TY[name] = n.get("ty")
-        if n.get("k") == "Binary" and n.get("op") == "Mul" and lit_int(n["l"]) is not None and "length" in render(n["r"]):
-            width = lit_int(n["l"])
+        # the byte count: the product of the parsed count with a literal item width
+        if n.get("k") == "Binary" and n.get("op") == "Mul" and (lit_int(n["r"]) is None) != (lit_int(n["l"]) is None):
+            width = lit_int(n["r"]) if lit_int(n["r"]) is not None else lit_int(n["l"])
             MUL_TY[name] = n.get("ty")
     return f, prefix, width
 
